@@ -49,3 +49,19 @@ func IsLastBlockOfSlashWindow(ctx sdk.Context, slashWindow uint64) bool {
 
 	return (uint64)(ctx.BlockHeight())%slashWindow == 0
 }
+
+// IsSlashWindowClosing returns true if the tally at the given height is the first one at or after
+// the last block of a slash window, i.e. a window boundary lies in (height - round length, height]
+func IsSlashWindowClosing(height int64, votePeriod, slashWindow uint64) bool {
+	if slashWindow == 0 || votePeriod == 0 || height < 0 {
+		return false
+	}
+
+	h := uint64(height)
+	round := votePeriod * 2
+	if h < round {
+		return h/slashWindow > 0
+	}
+
+	return h/slashWindow > (h-round)/slashWindow
+}
